@@ -255,3 +255,345 @@ func vdMailboxByName(name string) Mailbox {
 	}
 	return nil
 }
+
+// ---------------------------------------------------------------- scripted preemption scenarios
+// vdPauser blocks the goroutine that reaches gate point `point` for the nth time (and, for
+// gpEmptyAfter, only when IsEmpty returned wantEmpty) until resume is closed.
+type vdPauser struct {
+	point     vdGatePoint
+	nth       int32
+	wantEmpty int // -1: any, 0: false, 1: true
+	seen      atomic.Int32
+	reached   chan struct{}
+	resume    chan struct{}
+	once      sync.Once
+}
+
+func newVdPauser(p vdGatePoint, nth int32, wantEmpty int) *vdPauser {
+	return &vdPauser{point: p, nth: nth, wantEmpty: wantEmpty, reached: make(chan struct{}), resume: make(chan struct{})}
+}
+func (pa *vdPauser) hook(p vdGatePoint, isEmpty bool) {
+	if p != pa.point {
+		return
+	}
+	if pa.wantEmpty >= 0 && (isEmpty != (pa.wantEmpty == 1)) {
+		return
+	}
+	if pa.seen.Add(1) == pa.nth {
+		close(pa.reached)
+		<-pa.resume
+	}
+}
+func (pa *vdPauser) release() { pa.once.Do(func() { close(pa.resume) }) }
+
+type vdScenarioOut struct {
+	Name      string   `json:"name"`
+	Mailbox   string   `json:"mailbox"`
+	Completed bool     `json:"completed"` // the scripted preemption point was reached
+	Why       string   `json:"why"`
+	Overlaps  int64    `json:"overlaps"`
+	MaxConc   int32    `json:"max_concurrent"`
+	OverlapAt []string `json:"overlap_at"`
+	DeqRaces  int64    `json:"concurrent_dequeues"`
+	Told      int      `json:"told"`
+	Dup       int      `json:"duplicates"`
+	Lost      int      `json:"lost"`
+	Stalled   bool     `json:"stalled"`
+	EarlyRun  bool     `json:"ran_while_turn_held"` // a handler was entered although another invocation held the turn
+	FinalSt   string   `json:"final_state"`
+	Trace     []string `json:"trace"`
+}
+
+type vdScenarioEnv struct {
+	sys   ActorSystem
+	pid   *PID
+	rec   *vdRecorder
+	gate  *vdGateMailbox
+	out   *vdScenarioOut
+	ids   []uint64
+	next  uint64
+	rels  []func()
+	ctx   context.Context
+	trace func(string)
+}
+
+func (e *vdScenarioEnv) msg(block, entered bool) *vdMsg {
+	e.next++
+	m := &vdMsg{ID: e.next}
+	if block {
+		m.Block = make(chan struct{})
+		var o sync.Once
+		e.rels = append(e.rels, func() { o.Do(func() { close(m.Block) }) })
+	}
+	if entered {
+		m.Entered = make(chan struct{})
+	}
+	return m
+}
+func (e *vdScenarioEnv) tell(m *vdMsg) bool {
+	if err := Tell(e.ctx, e.pid, m); err != nil {
+		e.out.Why = "tell rejected: " + err.Error()
+		return false
+	}
+	e.ids = append(e.ids, m.ID)
+	e.trace(fmt.Sprintf("told %d", m.ID))
+	return true
+}
+func (e *vdScenarioEnv) idle() bool {
+	return vdWaitUntil(5*time.Second, func() bool {
+		return e.pid.schedState.Load() == dispatchIdle && e.gate.inner.IsEmpty() && e.rec.inHandler.Load() == 0
+	})
+}
+func (e *vdScenarioEnv) handled(id uint64) bool {
+	c, _ := e.rec.snapshot()
+	return c[id] > 0
+}
+
+// vdRunScenario builds a fresh system + gated actor, runs body, then applies the oracle.
+func vdRunScenario(name, mailbox string, budget int, body func(e *vdScenarioEnv) bool) (out vdScenarioOut) {
+	out.Name, out.Mailbox = name, mailbox
+	ctx := context.Background()
+	sys, err := vdNewSystem("vdscen", WithThroughputBudget(budget))
+	if err != nil {
+		out.Why = err.Error()
+		return
+	}
+	defer sys.Stop(ctx)
+	rec := newVdRecorder()
+	gate := newVdGateMailbox(vdMailboxByName(mailbox))
+	pid, err := sys.Spawn(ctx, "a", &vdActor{rec: rec}, WithLongLived(), WithMailbox(gate))
+	if err != nil {
+		out.Why = err.Error()
+		return
+	}
+	var tmu sync.Mutex
+	e := &vdScenarioEnv{sys: sys, pid: pid, rec: rec, gate: gate, out: &out, ctx: ctx}
+	e.trace = func(s string) { tmu.Lock(); out.Trace = append(out.Trace, s); tmu.Unlock() }
+	if !e.idle() {
+		out.Why = "actor did not become idle after start"
+		return
+	}
+	out.Completed = body(e)
+	gate.setHook(nil)
+	for _, r := range e.rels {
+		r()
+	}
+	out.Told = len(e.ids)
+	ok := vdWaitUntil(5*time.Second, func() bool {
+		c, _ := rec.snapshot()
+		for _, id := range e.ids {
+			if c[id] == 0 {
+				return false
+			}
+		}
+		return true
+	})
+	time.Sleep(2 * time.Millisecond)
+	out.Stalled = !ok
+	c, _ := rec.snapshot()
+	for _, id := range e.ids {
+		switch n := c[id]; {
+		case n == 0:
+			out.Lost++
+		case n > 1:
+			out.Dup += n - 1
+		}
+	}
+	out.Overlaps = rec.overlaps.Load()
+	out.MaxConc = rec.maxConc.Load()
+	rec.mu.Lock()
+	out.OverlapAt = append([]string(nil), rec.overlapAt...)
+	rec.mu.Unlock()
+	out.DeqRaces = gate.deqRaces.Load()
+	vdWaitUntil(time.Second, func() bool { return pid.schedState.Load() == dispatchIdle })
+	out.FinalSt = c01StateNameLib(pid.schedState.Load())
+	return out
+}
+
+func c01StateNameLib(v uint32) string {
+	switch v {
+	case dispatchIdle:
+		return "Idle"
+	case dispatchScheduled:
+		return "Scheduled"
+	case dispatchProcessing:
+		return "Processing"
+	}
+	return fmt.Sprintf("invalid(%d)", v)
+}
+
+// vdScenarios: the emulated-preemption witnesses the proofs depend on.
+func vdScenarios(mailbox string) []vdScenarioOut {
+	var outs []vdScenarioOut
+	// S1: a message is enqueued between the worker's last (empty) Dequeue and its reset to Idle.
+	outs = append(outs, vdRunScenario("S1 enqueue between empty dequeue and reset", mailbox, 32, func(e *vdScenarioEnv) bool {
+		pa := newVdPauser(gpDeqAfterNil, 1, -1)
+		e.gate.setHook(pa.hook)
+		defer pa.release()
+		if !e.tell(e.msg(false, false)) {
+			return false
+		}
+		if !vdWait(pa.reached, 5*time.Second) {
+			e.out.Why = "worker never observed an empty dequeue"
+			return false
+		}
+		e.trace("worker paused after Dequeue()==nil, state " + c01StateNameLib(e.pid.schedState.Load()))
+		m1 := e.msg(false, false)
+		if !e.tell(m1) {
+			return false
+		}
+		pa.release()
+		return true
+	}))
+	// S2: after the reset, before the emptiness re-check: a producer wins the schedule, another
+	// worker takes the turn and is inside the handler; the first worker must not continue.
+	outs = append(outs, vdRunScenario("S2 new owner between reset and re-check", mailbox, 32, func(e *vdScenarioEnv) bool {
+		pa := newVdPauser(gpEmptyBefore, 1, -1)
+		e.gate.setHook(pa.hook)
+		defer pa.release()
+		if !e.tell(e.msg(false, false)) {
+			return false
+		}
+		if !vdWait(pa.reached, 5*time.Second) {
+			e.out.Why = "worker never reached the emptiness re-check"
+			return false
+		}
+		e.trace("worker paused before IsEmpty, state " + c01StateNameLib(e.pid.schedState.Load()))
+		mA := e.msg(true, true)
+		if !e.tell(mA) {
+			return false
+		}
+		if !vdWait(mA.Entered, 5*time.Second) {
+			e.out.Why = "message told after the reset was not picked up by another worker"
+			e.out.Stalled = true
+			return true
+		}
+		mB := e.msg(false, true)
+		if !e.tell(mB) {
+			return false
+		}
+		pa.release()
+		if vdWait(mB.Entered, 150*time.Millisecond) {
+			e.out.EarlyRun = true
+		}
+		return true
+	}))
+	// S3: a producer is preempted between its completed enqueue and TrySchedule.
+	outs = append(outs, vdRunScenario("S3 producer preempted between enqueue and TrySchedule", mailbox, 32, func(e *vdScenarioEnv) bool {
+		pa := newVdPauser(gpEnqAfter, 1, -1)
+		e.gate.setHook(pa.hook)
+		defer pa.release()
+		m1 := e.msg(false, false)
+		e.ids = append(e.ids, m1.ID)
+		done := make(chan error, 1)
+		go func() { done <- Tell(e.ctx, e.pid, m1) }()
+		if !vdWait(pa.reached, 5*time.Second) {
+			e.out.Why = "producer never completed its enqueue"
+			return false
+		}
+		e.trace("producer paused after Enqueue, state " + c01StateNameLib(e.pid.schedState.Load()))
+		m2 := e.msg(false, false)
+		if !e.tell(m2) {
+			return false
+		}
+		vdWaitUntil(2*time.Second, func() bool { return e.handled(m2.ID) })
+		e.trace(fmt.Sprintf("before resuming the producer: m1 handled=%v m2 handled=%v state %s", e.handled(m1.ID), e.handled(m2.ID), c01StateNameLib(e.pid.schedState.Load())))
+		pa.release()
+		<-done
+		return true
+	}))
+	// S4: budget exhaustion: the last handler of the budget is held; nobody else may run the actor.
+	outs = append(outs, vdRunScenario("S4 handler held at the budget boundary", mailbox, 2, func(e *vdScenarioEnv) bool {
+		pa := newVdPauser(gpDeqBefore, 1, -1)
+		e.gate.setHook(pa.hook)
+		defer pa.release()
+		if !e.tell(e.msg(false, false)) {
+			return false
+		}
+		if !vdWait(pa.reached, 5*time.Second) {
+			e.out.Why = "worker never started its turn"
+			return false
+		}
+		m2 := e.msg(true, true)
+		m3 := e.msg(false, true)
+		m4 := e.msg(false, true)
+		if !e.tell(m2) || !e.tell(m3) || !e.tell(m4) {
+			return false
+		}
+		pa.release()
+		if !vdWait(m2.Entered, 5*time.Second) {
+			e.out.Why = "second message of the turn not handled"
+			e.out.Stalled = true
+			return true
+		}
+		if vdWait(m3.Entered, 150*time.Millisecond) {
+			e.out.EarlyRun = true
+		}
+		e.trace("state while the handler is held: " + c01StateNameLib(e.pid.schedState.Load()))
+		return true
+	}))
+	// S5: the worker saw an empty mailbox after the reset and is about to leave; a message arrives.
+	outs = append(outs, vdRunScenario("S5 enqueue after the re-check saw empty", mailbox, 32, func(e *vdScenarioEnv) bool {
+		pa := newVdPauser(gpEmptyAfter, 1, 1)
+		e.gate.setHook(pa.hook)
+		defer pa.release()
+		if !e.tell(e.msg(false, false)) {
+			return false
+		}
+		if !vdWait(pa.reached, 5*time.Second) {
+			e.out.Why = "worker never saw an empty mailbox at the re-check"
+			return false
+		}
+		m1 := e.msg(false, false)
+		if !e.tell(m1) {
+			return false
+		}
+		vdWaitUntil(2*time.Second, func() bool { return e.handled(m1.ID) })
+		e.trace(fmt.Sprintf("worker still paused after IsEmpty()==true; m1 handled=%v", e.handled(m1.ID)))
+		pa.release()
+		return true
+	}))
+	// S6: a message told while the first worker is paused after a NON-empty re-check (it will reclaim).
+	outs = append(outs, vdRunScenario("S6 reclaim after a non-empty re-check", mailbox, 32, func(e *vdScenarioEnv) bool {
+		pa := newVdPauser(gpDeqAfterNil, 1, -1)
+		pb := newVdPauser(gpEmptyAfter, 1, 0)
+		e.gate.setHook(func(p vdGatePoint, b bool) { pa.hook(p, b); pb.hook(p, b) })
+		defer pa.release()
+		defer pb.release()
+		if !e.tell(e.msg(false, false)) {
+			return false
+		}
+		if !vdWait(pa.reached, 5*time.Second) {
+			e.out.Why = "worker never observed an empty dequeue"
+			return false
+		}
+		m1 := e.msg(false, true)
+		if !e.tell(m1) { // TrySchedule fails: state is Processing
+			return false
+		}
+		pa.release()
+		if !vdWait(pb.reached, 5*time.Second) {
+			e.out.Why = "worker did not see the message at the re-check"
+			e.out.Stalled = !e.handled(m1.ID)
+			return true
+		}
+		e.trace("worker paused after IsEmpty()==false, state " + c01StateNameLib(e.pid.schedState.Load()))
+		m2 := e.msg(true, true)
+		if !e.tell(m2) { // wins Idle->Scheduled, pushes a ticket; some worker takes it
+			return false
+		}
+		vdWait(m1.Entered, 2*time.Second)
+		e.trace(fmt.Sprintf("while the first worker is paused: m1 handled=%v", e.handled(m1.ID)))
+		pb.release()
+		time.Sleep(20 * time.Millisecond)
+		m3 := e.msg(false, true)
+		if !e.tell(m3) {
+			return false
+		}
+		if vdWait(m2.Entered, 2*time.Second) && vdWait(m3.Entered, 150*time.Millisecond) {
+			e.out.EarlyRun = true
+		}
+		return true
+	}))
+	return outs
+}
